@@ -81,6 +81,8 @@ def generate(st):
         'giant': (sw.random() < (0.01 if getattr(st, 'deep', False) else 0.001)),     # a container with hundreds of plain members          # containers with many members
         'shared_containers': sw.random() < 0.3,      # the caller refills the SAME container objects and waits again
         'kwcall': sw.random() < 0.2,                 # waiter(value=...) instead of waiter(...)
+        # somebody else in the same process waits on a structure of their own at the same time (delays of its three awaitables)
+        'twin': [sw.choice(DELAYS), sw.choice(DELAYS), sw.choice(DELAYS)] if sw.random() < 0.3 else None,
     }
     leaves = []
     made = []
@@ -105,6 +107,7 @@ def generate(st):
         elif kind == 'nested':
             if depth_left >= 1:
                 leaf['sub'] = build(min(depth_left, 2) - 1, top=False, force_container=True)
+                leaf['twice'] = g.random() < 0.5      # the coroutine also polls-and-resubmits a dict of its own through waiter
             else:
                 leaf['kind'] = 'sleep'
         return {'t': 'leaf', 'i': i}
@@ -375,6 +378,17 @@ def execute(trace, ctx=None):
 
     async def c_nested(i, sub, g_=1):
         started[(i, g_)] += 1
+        if leaves[i].get('twice'):
+            # a private dict waited on, one member replaced, waited on again: two calls, two answers
+            async def quick(r):
+                return r
+            priv = {'a': quick('P1'), 'b': 5}
+            r1_ = await waiter(priv)
+            priv['a'] = quick('P2')
+            r2_ = await waiter(priv)
+            if r1_ != {'a': 'P1', 'b': 5} or r2_ != {'a': 'P2', 'b': 5}:
+                box['nested_bad'] = (r1_, r2_)
+            res.probe('waiter-called-twice-on-one-dict-from-inside-a-wait')
         v = await waiter(sub)
         finished.append(i)
         ev(i).set()
@@ -603,7 +617,38 @@ def execute(trace, ctx=None):
             return ('two-rounds', r1, r2)
         return r1
 
-    outcome = loop.run_main(main)
+    twin = trace['cfg'].get('twin')
+    if twin:
+        async def top():
+            async def t_sleep(d, r):
+                await asyncio.sleep(d)
+                return r
+            fut = loop.create_future()
+            loop.call_later(twin[2], lambda: fut.done() or fut.set_result('T3'))
+            # the other user's wait starts first and overlaps ours at every step
+            other = asyncio.ensure_future(waiter({'p': t_sleep(twin[0], 'T1'), 'q': [t_sleep(twin[1], 'T2'), 7, ()], 'r': fut}))
+            inner = asyncio.ensure_future(main())
+            loop.main_task = inner
+            try:
+                r = ('ok', await inner)
+            except BaseException as e_:
+                r = ('exc', e_)
+            try:
+                tw = ('ok', await other)
+            except BaseException as e_:
+                tw = ('exc', e_)
+            return r, tw
+        outcome = loop.run_main(top)
+        if outcome[0] == 'ok':
+            outcome, tw = outcome[1]
+            res.probe('concurrent-independent-wait')
+            want_tw = {'p': 'T1', 'q': ['T2', 7, ()], 'r': 'T3'}
+            if tw[0] != 'ok' or not _same(tw[1], want_tw):
+                res.violation = {'cls': 'wrong-result', 'msg': 'a second, independent waiter running at the same time returned %r, expected %r' % (tw[1], want_tw), 'step': None}
+                res.obs = ['twin']
+                return res
+    else:
+        outcome = loop.run_main(main)
     for i in slow:
         if started[(i, 1)] or leaves[i]['kind'] in ('future', 'custom', 'task'):
             res.fault('slow_leaf')
@@ -660,6 +705,9 @@ def execute(trace, ctx=None):
 
     # ---- oracles ----
     try:
+        if box.get('nested_bad'):
+            raise Violation('wrong-result', 'a coroutine inside the structure that waits twice on a dict of its own (one member replaced in between) got %r then %r'
+                            % box['nested_bad'])
         if kind == 'deadlock':
             raise Violation('no-termination', 'waiter never completes: nothing runnable, nothing scheduled (finished=%s)' % finished)
         if kind == 'stepcap':
